@@ -87,6 +87,32 @@ static int mt_run(int P, unsigned seed, int n, int limit, int succ) {
     return 0;
 }
 
+// a rejecting (or limited) successor among queueing ones: the queueing successors must still receive every output exactly once
+static int mtmix_run(int P, unsigned seed, int n, int pos, int kind) {
+    tbb::global_control gc(tbb::global_control::max_allowed_parallelism, P);
+    graph g;
+    function_node<long, long> src(g, unlimited, [](long v) { return v; });
+    std::vector<std::atomic<int>> gs(n), gt(n); for (auto& x : gs) x = 0; for (auto& x : gt) x = 0;
+    std::atomic<long> rej_seen{0};
+    function_node<long, continue_msg, rejecting> R(g, serial, [&](long) { rej_seen++; for (volatile int k = 0; k < 20000; ++k) {} return continue_msg(); });
+    limiter_node<long> L(g, 1);
+    function_node<long, continue_msg> Lsink(g, serial, [&](long) { rej_seen++; for (volatile int k = 0; k < 20000; ++k) {} return continue_msg(); });
+    function_node<long, continue_msg> S(g, serial, [&](long v) { gs[v]++; return continue_msg(); });
+    function_node<long, continue_msg> T(g, unlimited, [&](long v) { gt[v]++; return continue_msg(); });
+    auto connect_rej = [&] { if (kind == 0) make_edge(src, R); else { make_edge(src, L); make_edge(L, Lsink); make_edge(Lsink, L.decrementer()); } };
+    if (pos == 0) { connect_rej(); make_edge(src, S); make_edge(src, T); }
+    else if (pos == 1) { make_edge(src, S); connect_rej(); make_edge(src, T); }
+    else { make_edge(src, S); make_edge(src, T); connect_rej(); }
+    std::vector<std::thread> th; int Tn = 1 + seed % 2;
+    for (int t = 0; t < Tn; ++t) th.emplace_back([&, t] { for (int i = t; i < n; i += Tn) { src.try_put(i); if (i % 16 == 0) std::this_thread::yield(); } });
+    for (auto& x : th) x.join();
+    g.wait_for_all();
+    long lost_s = 0, lost_t = 0, dup = 0;
+    for (int i = 0; i < n; ++i) { if (gs[i] == 0) lost_s++; if (gt[i] == 0) lost_t++; if (gs[i] > 1 || gt[i] > 1) dup++; }
+    std::printf("LOSTQUEUEING %ld LOSTUNLIMITED %ld DUP %ld\n", lost_s, lost_t, dup);
+    return 0;
+}
+
 int main(int argc, char** argv) {
     std::string mode = argc > 1 ? argv[1] : "";
     if (mode == "seq") {
@@ -95,6 +121,7 @@ int main(int argc, char** argv) {
         while (read_case(c)) { wd.arm(&o); if (c[1] == 1) seq_run<queueing>(c, o); else seq_run<rejecting>(c, o); o.flush(); wd.disarm(); }
         return 0;
     }
+    if (mode == "mtmix") return mtmix_run(atoi(argv[2]), (unsigned)atoi(argv[3]), atoi(argv[4]), atoi(argv[5]), atoi(argv[6]));
     if (mode == "mt") return mt_run(atoi(argv[2]), (unsigned)atoi(argv[3]), atoi(argv[4]), atoi(argv[5]), atoi(argv[6]));
     return 2;
 }
